@@ -130,6 +130,8 @@ def _minmax(interp, args, kwargs, is_min):
         src = args[0]
         if isinstance(src, (SOpt, SChoice)):
             src = interp.resolve(src)
+        if isinstance(src, (SList, SIter)):
+            return _minmax_slist(interp, src, is_min)
         items = list(interp.iterate(src))
     else:
         items = list(args)
@@ -380,6 +382,14 @@ def m_filter(interp, args, kwargs):
     f, src = args
     if isinstance(src, (SOpt, SChoice)):
         src = interp.resolve(src)
+    if isinstance(src, (SList, SIter, SEnumerate)):
+        from . import seqs
+
+        def cond(interp2, x):
+            v = x if f is None else interp2.call(f, [x], {})
+            return to_z3(interp2.truth(v))
+
+        return SIter(seqs.filtered(interp, src, cond), 0)
 
     def gen():
         for x in interp.iterate(src):
@@ -393,6 +403,11 @@ def m_filter(interp, args, kwargs):
 @model(builtins.reversed)
 def m_reversed(interp, args, kwargs):
     (x,) = args
+    if isinstance(x, (SOpt, SChoice)):
+        x = interp.resolve(x)
+    if isinstance(x, SList):
+        from . import seqs
+        return SIter(seqs.reversed_(interp, x), 0)
     if isinstance(x, (list, tuple)):
         return reversed(x)
     return reversed(list(interp.iterate(x)))
@@ -400,6 +415,14 @@ def m_reversed(interp, args, kwargs):
 
 @model(builtins.sorted)
 def m_sorted(interp, args, kwargs):
+    src = args[0]
+    if isinstance(src, (SOpt, SChoice)):
+        src = interp.resolve(src)
+    if isinstance(src, (SList, SIter, SEnumerate)):
+        if kwargs:
+            raise Unsupported('sorted(symbolic sequence) with key/reverse')
+        from . import seqs
+        return seqs.sorted_(interp, src)
     items = list(interp.iterate(args[0]))
     key = kwargs.get('key')
     rev = kwargs.get('reverse', False)
@@ -921,3 +944,33 @@ def m_items_of(interp, args, kwargs):
             return seqs.slice_(interp, x.xs, slice(x.pos, None, None))
         return seqs.as_slist(interp, x)
     return list(interp.iterate(x))
+
+
+def _minmax_slist(interp, src, is_min):
+    """min/max of a non-empty symbolic sequence of integers: a bound of every element that is attained"""
+    from . import seqs
+    st = interp.st
+    xs = seqs.as_slist(interp, src)
+    if not st.fork(wrap(xs.length > 0)):
+        raise _pyraise(ValueError('min()/max() arg is an empty sequence'))
+    r = st.fresh_int('min' if is_min else 'max')
+    w = st.fresh_int('argmin' if is_min else 'argmax')
+    st.assume(z3.And(w >= 0, w < xs.length))
+    ew = slist_elem(interp, xs, w)
+    if not isinstance(ew, (SInt, int)):
+        raise Unsupported('min/max over a symbolic sequence of non-integers')
+    st.assume(to_z3(ew) == r)
+    j = st.fresh_int('j')
+    n_pc = len(st.pc)
+    st.solver.push()
+    try:
+        with st.scope(z3.And(0 <= j, j < xs.length)):
+            e = to_z3(slist_elem(interp, xs, j))
+    finally:
+        st.solver.pop()
+        learned = st.pc[n_pc:]
+        del st.pc[n_pc:]
+    for t in learned:
+        st._add(z3.ForAll([j], t) if _mentions(t, j) else t)
+    st._add(z3.ForAll([j], z3.Implies(z3.And(0 <= j, j < xs.length), (r <= e) if is_min else (r >= e))))
+    return wrap(r)
